@@ -42,7 +42,9 @@ REQUIRED = [
     'fix_9f4a9df_missing_district_now', 'fix_9f4a9df_missing_district_before_witness',
     'fix_e582ee8_max_seats_now', 'fix_e582ee8_max_seats_before_witness',
     'fix_e582ee8_byParty_seatless_now', 'fix_e582ee8_byParty_seatless_before_witness',
-    'conditioned_none_seats_witness', 'byParty_max_seats_forced_witness',
+    'fix_5bf2df2_byParty_max_seats_now', 'fix_5bf2df2_byParty_max_seats_before_witness',
+    'byParty_law_columns', 'byParty_eq_of_columns', 'partyColumn_ok_of_nested',
+    'conditioned_none_seats_witness',
     # what the laws say
     'multistage_chain', 'multistage_nil', 'tieBreaking_noTie_sel', 'tieBreaking_noTie_dist', 'tieChoice_among',
     'tieBreaking_ideal', 'replaceSel_eq_fill', 'fillTie_other_places', 'fillTie_length', 'collectSel_count',
@@ -1408,8 +1410,8 @@ ASSUMPTIONS = [
     'FixedSeatCount / tiebreaker / district evaluator / party evaluator / unused-votes stage take a seat count; stages of '
     'a MultistageDistributor, the inner evaluator of PreApportioned / RemovedApportionment and a ByParty allocator take '
     'seats, prev_gains and max_seats; an apportioner given as evaluator takes a seat count.  Since e582ee8 NOTHING about '
-    'the dispatch flags is assumed (dispatchFaithful_all).  The only defect left outside it is the ByParty allocator that '
-    'accepts prev_gains but not max_seats (byParty_max_seats_forced_witness)',
+    'the dispatch flags is assumed (dispatchFaithful_all).  A ByParty allocator taking only part of (prev_gains, max_seats) '
+    'is outside it only because the law computes both columns; such calls are covered per call by byParty_law_columns',
     'a.fits (takes t): the call gives the tree no argument it cannot take',
     'laws_compose is about the laws as the code reads them; the one remaining difference to the ideal reading is '
     'Conditioned forwarding its default n_seats=None (conditioned_ideal + conditioned_none_seats_witness)',
@@ -1431,12 +1433,12 @@ LEVEL_TEXT = ('core.py\'s thirteen wrapper classes are modelled as a deep embedd
               'under node-local typing conditions, and by structural induction a well-formed tree of any depth over any leaves evaluates '
               'to the composition of its parts (laws_compose).  The more demanding readings (omitted seat count stays omitted; tie '
               'places filled in order; exactly as many list candidates as seats won; each constituency separately) are proved under '
-              'explicit decidable conditions; every repaired defect has a before/after pair of decide-checked witnesses, the two open '
-              'ones a witness.  The model is tied to /repo by a three-way differential check (wrapper, hand composition with the same '
+              'explicit decidable conditions; every repaired defect has a before/after pair of decide-checked witnesses, the one open '
+              'finding a witness.  The model is tied to /repo by a three-way differential check (wrapper, hand composition with the same '
               'leaf objects, Lean interpreter) on random typed trees, and the hard-coded dispatch flags are compared with votelib\'s on '
               'the live objects of every case.')
 LEVEL_NOTE = ('Trusted: Lean kernel + propext/Classical.choice/Quot.sound; the correspondence harness and its generator bounds (depth <= 4, '
               'six leaf classes, closed lists); inspect.signature itself (flags hard-coded per class, cross-checked on every case); the '
-              'shared HighestAverages / get_n_best models as leaves.  Two open findings (Conditioned forwards its default n_seats=None; '
-              'ByParty hands max_seats to an allocator that accepts prev_gains only) are matched by (wrapper, input class) signatures; '
-              'twelve fixed entries (904ccca, 3968d16, caf8ac3, 9f4a9df, e582ee8) are replayed on every run.')
+              'shared HighestAverages / get_n_best models as leaves.  One open finding (Conditioned forwards its default n_seats=None) is '
+              'matched by its (wrapper, input class) signature; thirteen fixed entries (904ccca, 3968d16, caf8ac3, 9f4a9df, e582ee8, '
+              '5bf2df2) are replayed on every run.')
